@@ -160,4 +160,19 @@ theorem raw_variables_raise :
     ruleOrig 5 0 none ⟨[anon [fld "a" [.field none "a" { skip := some (.var "v") } [fld "c"]]]], []⟩ [] = .error .coercion := by
   decide
 
+/-- after C19-Q1vars.patch the same request is fine: the declared default `true` skips the field (depth 0),
+    a default `false` keeps it (depth 1 > 0), and a required variable that is provided is used -/
+theorem defaulted_variable_ok :
+    ruleV 5 0 none ⟨[anon [.field none "a" { skip := some (.var "v") } [fld "c"]]], []⟩ [[⟨"v", false, some true⟩]] [] = .ok [] ∧
+    ruleV 5 0 none ⟨[anon [.field none "a" { skip := some (.var "v") } [fld "c"]]], []⟩ [[⟨"v", false, some false⟩]] [] = .ok [(0, 1)] ∧
+    ruleV 5 0 none ⟨[anon [.field none "a" { skip := some (.var "v") } [fld "c"]]], []⟩ [[⟨"v", true, none⟩]] [("v", true)] = .ok [] := by
+  decide
+
+example : ValidV ⟨[anon [.field none "a" { skip := some (.var "v") } [fld "c"]]], []⟩ [[⟨"v", false, some true⟩]] [] := by
+  refine ⟨by decide, ?_⟩
+  intro i op hi
+  cases i with
+  | zero => simp at hi; subst hi; exact ⟨by decide, by intro f hf; cases hf⟩
+  | succ i => simp at hi
+
 end PyGql.Props.C19
